@@ -244,7 +244,9 @@ func (a *adapter) Data(data []byte, streamEnded bool) error {
 		default:
 			panic(fmt.Sprintf("unexpected state: %v", a.state))
 		}
-		if a.buffer.Len() == 0 {
+		// Only stop between messages: a zero-length message is complete as soon as its prefix has
+		// been read and must still be delivered (together with streamEnded) by the next iteration.
+		if a.state == readingMetadata && a.buffer.Len() == 0 {
 			return nil
 		}
 	}
